@@ -3,5 +3,5 @@ Require Import IW.Lib.CInt IW.Gen.Facts IW.WAL.Rec IW.WAL.Scan IW.WAL.Replay IW.
 Extraction "m.ml" Z.add Z.mul Z.sub Z.div_eucl Z.compare Z.of_nat Z.to_nat Z.opp
   encode enc_rec rec_size crc32 scan parse wf_log crc_ok crc_full sp_offsets layout_ok
   replay_ops apply_ops recover aop_sig
-  run step effect_sig after_effects recovery_effects
+  run step effect_sig after_effects recovery_effects recover_open
   mk_image split_image open_image backup_run.
